@@ -284,6 +284,8 @@ class Analysis:
         # operands cannot be unary, nested cast etc.
         assert isinstance(y, (pr.Constant, pr.ID))
         assert isinstance(z, (pr.Constant, pr.ID))
+        if isinstance(y, pr.Constant) and isinstance(z, pr.Constant):
+            return Analysis.constant(index, x.name)  # x = c1 (op) c2
 
         non_constants = tuple([
             v.name if hasattr(v, 'name') else None
